@@ -49,7 +49,7 @@ macro_rules! export_value_harness {
         }
     };
 }
-//@h name=c11_l1_export_value_l9 tier=quick mode=func timeout=1200 desc="AeadCtxS::export and AeadCtxR::export == RFC 9180 LabeledExpand(exporter_secret, 'sec', exporter_context, L) under the context's full suite id for an arbitrary exporter secret and counter state; sender == receiver; L = 9 (two HKDF blocks with Nh=8)" bounds="exporter secret (64 bit), seq, overflowed symbolic; exporter context 0..=3 B symbolic; L = 9 concrete (a symbolic output length makes the memcpy sizes symbolic: >20 min); LinHash; unwind 20"
+//@h name=c11_l1_export_value_l9 tier=quick mode=func also=C02 timeout=1200 desc="AeadCtxS::export and AeadCtxR::export == RFC 9180 LabeledExpand(exporter_secret, 'sec', exporter_context, L) under the context's full suite id for an arbitrary exporter secret and counter state; sender == receiver; L = 9 (two HKDF blocks with Nh=8)" bounds="exporter secret (64 bit), seq, overflowed symbolic; exporter context 0..=3 B symbolic; L = 9 concrete (a symbolic output length makes the memcpy sizes symbolic: >20 min); LinHash; unwind 20"
 export_value_harness!(c11_l1_export_value_l9, 9);
 //@h name=c11_l1_export_value_l0 tier=quick mode=func timeout=1200 desc="same for L = 0 (empty export succeeds and writes nothing)" bounds="L = 0"
 export_value_harness!(c11_l1_export_value_l0, 0);
